@@ -22,6 +22,7 @@ mod ops_anchors;
 mod ops_arena;
 mod ops_det;
 mod ops_c04;
+mod ops_cm;
 
 pub const COMPONENTS: &[fn(&str, &[String]) -> Option<String>] = &[
     ops_anchors::dispatch,
@@ -29,6 +30,7 @@ pub const COMPONENTS: &[fn(&str, &[String]) -> Option<String>] = &[
     ops_det::dispatch,
     ops_c04::dispatch,
     ops_cli::dispatch,
+    ops_cm::dispatch,
 ];
 
 #[allow(dead_code)]
